@@ -18,11 +18,11 @@ Require Import Grits.Base Grits.ModeDefs Grits.Modes Grits.STypes Grits.Forms Gr
 Fixpoint frag_form (f : form) : bool :=
   match f with
   | FSend _ _ _ | FSel _ _ _ | FClose _ | FCall _ _ _ | FCast _ _ => true
-  | FRecv _ _ _ k | FWait _ k | FShift _ _ k | FPrint _ k => frag_form k
+  | FRecv _ _ _ k | FWait _ k | FShift _ _ k | FPrint _ k | FDrop _ k => frag_form k
   | FCase _ bs => frag_brs bs
   | FNew _ b k => frag_form b && frag_form k
-  | FFwd _ _ d => negb d
-  | FSplit _ _ _ _ | FDrop _ _ => false
+  | FFwd _ _ _ => true
+  | FSplit _ _ _ _ => false
   end
 with frag_brs (b : branches) : bool :=
   match b with
@@ -30,7 +30,7 @@ with frag_brs (b : branches) : bool :=
   | BrCons _ _ k r => frag_form k && frag_brs r
   end.
 
-(* no drop / split / droppable forward anywhere, one provider name per process, no assumed names *)
+(* no split anywhere, one provider name per process (hence no DUP), no assumed names *)
 Definition in_fragment (p : program) : Prop :=
   p_assumed p = [] /\
   Forall (fun pr => frag_form (pr_body pr) = true /\ exists n, pr_providers pr = [n]) (p_procs p) /\
@@ -232,9 +232,15 @@ Definition example_text : string :=
 let srv() : A = <x, y> <- recv self; u : lin 1 <- new close self; print served; send y<x, u>
 prc[a] : lin 1 = s : A <- new srv(); v : lin 1 <- new close self; r : lin 1 * 1 <- new send s<v, self>; <p, q> <- recv r; wait p; wait q; print done; close self".
 
-(* (number of processes left, labels printed, ended in quiescence without error) under the canonical schedule *)
-Definition run_example (md : exec_mode) (pick : nat -> nat -> nat) : option (nat * list string * bool) :=
-  match parse_string example_text with
+(* weakening: dropping s reclaims its provider and the process that only it depended on *)
+Definition example_drop_text : string :=
+"type A = aff 1 -* 1
+let srv() : A = c : aff 1 <- new close self; <x, y> <- recv self; wait x; wait c; close y
+prc[a] : aff 1 = s : A <- new srv(); u : aff 1 <- new close self; drop u; drop s; print dropped; close self".
+
+(* (number of processes left, labels printed, ended in quiescence without error) *)
+Definition run_text (txt : string) (md : exec_mode) (pick : nat -> nat -> nat) : option (nat * list string * bool) :=
+  match parse_string txt with
   | POk p =>
     match typecheck p with
     | Accept p' =>
@@ -247,9 +253,13 @@ Definition run_example (md : exec_mode) (pick : nat -> nat -> nat) : option (nat
     end
   | _ => None
   end.
+Definition run_example := run_text example_text.
+Definition run_example_drop := run_text example_drop_text.
 
-Definition example_in_fragment : Prop :=
-  match parse_string example_text with
+Definition text_in_fragment (txt : string) : Prop :=
+  match parse_string txt with
   | POk p => match typecheck p with Accept p' => in_fragment p' | _ => False end
   | _ => False
   end.
+Definition example_in_fragment : Prop := text_in_fragment example_text.
+Definition example_drop_in_fragment : Prop := text_in_fragment example_drop_text.
